@@ -9,11 +9,13 @@ text:span) spelt as text, as CDATA sections (alone, mixed with text, adjacent se
 "]]>" is embedded — and empty ones) or both.  The formula text (<f>) is read back through
 worksheet_formula as well.  The extracted
 Coq encoder (vm `xmltext xlsx|ods`) produces the event lists, the model's answer (M), the
-specification's answer (S) and the known class; tools/textgen.py serialises the events to XML
+specification's answer (S) (no known class is left); tools/textgen.py serialises the events to XML
 (entity / character-reference spelling drawn per character), zips them, and the real readers
 open the file through the generic harness command `open`.  Binary storage: xlsb `wide_str` and
 cfb `XlsEncoding::decode_to` through hooks, on UTF-16 with lone surrogates, truncations, BOMs.
-i vs m is the tie; i vs s on structured cases outside the known classes is the search."""
+i vs m is the tie; i vs s on structured cases is the search.  xlsx strings carry ECMA-376 _xHHHH_
+material (escapes, near-misses, fragments glued over chunk and run boundaries), ods text carries
+text:tab / text:line-break in every position."""
 import os, re, hashlib
 import vlib
 from textgen import (S, E, T, C, O, hx, unhx, wire, unwire, serialise, xlsx_bytes, ods_bytes,
@@ -21,12 +23,12 @@ from textgen import (S, E, T, C, O, hx, unhx, wire, unwire, serialise, xlsx_byte
 
 ASSUMPTIONS = [
     "quick-xml maps the serialiser's output back to the intended events (tokenisation, entity and character-reference unescaping, empty-element expansion); zip returns the stored bytes",
-    "the models start at the event list delivered by quick-xml; the ST_Xstring layer (_xHHHH_) is part of the specification S (class F37)",
+    "the models start at the event list delivered by quick-xml; the ST_Xstring layer (_xHHHH_) is part of the specification S (xunescape) and of the model M (unescape_xstring), proved equal",
     "ods office:value (float) cells are outside the text model (ONonText)",
 ]
 
 TMP = os.path.join(vlib.CACHE, "tmp", "c19")
-KNOWN_IDS = ("F35", "F36", "F37")
+KNOWN_IDS = ()                 # F12, F34, F35, F36, F37 were all repaired in /repo
 
 # ------------------------------------------------------------------ strings
 SPECIAL = ["&", "<", ">", '"', "'", "&amp;", "&#65;", "]]>", "<![CDATA[", "<!--", "-->", "<?", "&lt;"]
@@ -34,6 +36,14 @@ WS = [" ", "  ", "   ", "\t", "\n", "\r", "\r\n", " \n ", "\n\n", "\t\t"]
 ASTRAL = ["\U0001F600", "\U00010000", "\U0010FFFF", "\U0001D11E", "\U00020000"]
 BMP = ["\u00e9", "\u4e2d", "\ufeff", "\ufffd", "\ud7ff", "\ue000", "\u0085", "\u2028", "\u00a0",
        "\u3000", "\u30a2", "_x000D_", "_x005F_", "\u0301"]
+# ST_Xstring material: escapes (upper / lower-case digits), the escaped underscore, escapes naming
+# surrogates, near-misses (too few / too many digits, no closing underscore, capital X, a non-hex
+# digit), overlapping candidates, pieces that only become an escape when glued to a neighbour
+XESC = ["_x000D_", "_x000d_", "_x000A_", "_x0009_", "_x005F_", "_x005f_", "_x005F_x000D_", "_x0041_", "_x00e9_",
+        "_x4E2D_", "_xFFFF_", "_xfffe_", "_x0000_", "_x0001_", "_x001F_", "_xD83D_", "_xDE00_", "_xD83D__xDE00_",
+        "_xd800_", "_xDFFF_", "_xD7FF_", "_xE000_", "_x12_", "_x123_", "_x12345_", "_x000D", "x000D_", "_X000D_",
+        "_x000G_", "_x00 0D_", "__x0041_", "_x00_x0041_", "_x_x0041__", "_x005F", "_x", "_", "x", "_x0", "00D_",
+        "_x005F__x005F_", "_x005F_x005F_"]
 ASCII = "abcXYZ019 ,;:/=-_"
 
 def gen_string(rng, xml=True, maxlen=None):
@@ -56,8 +66,12 @@ def gen_string(rng, xml=True, maxlen=None):
             out.append(rng.choice(WS))
         elif k < 0.82:
             out.append(rng.choice(ASTRAL))
-        elif k < 0.94:
+        elif k < 0.91:
             out.append(rng.choice(BMP))
+        elif k < 0.96 and xml:
+            out.append(rng.choice(XESC))
+        elif xml and k < 0.975:
+            out.append("_x%04X_" % rng.randrange(0x10000) if rng.random() < 0.5 else "_x%04x_" % rng.randrange(0x10000))
         else:
             cp = rng.choice([rng.randrange(0x20, 0x7f), rng.randrange(0xa0, 0xd800),
                              rng.randrange(0xe000, 0xfffe), rng.randrange(0x10000, 0x110000)])
@@ -286,9 +300,9 @@ def para_wire(rng, line, flags):
                     left -= k
             i = j
             continue
-        if ch == "\t" and flags.get("tab") and rng.random() < 0.7 * f:
+        if ch == "\t" and flags.get("tab") and rng.random() < 0.8 * f:
             flush(); out.append("T")
-        elif ch == "\n" and flags.get("break") and rng.random() < max(f, 0.02):
+        elif ch == "\n" and flags.get("break") and rng.random() < max(0.85 * f, 0.02):
             flush(); out.append("B")
         else:
             lit.append(ch)
@@ -319,7 +333,19 @@ def content_wire(rng, s, flags):
         lines = [s]                                   # long text: keep the piece count moderate
         flags = dict(flags, **{"break": False})
     elif flags.get("break"):
-        lines = [s]                                   # line breaks as <text:line-break/>
+        # every LF is either a paragraph boundary or stays inside its paragraph, where para_wire
+        # writes it as <text:line-break/> (mostly) or literally
+        mode = rng.random()
+        if mode < 0.35:
+            lines = [s]
+        else:
+            lines, cur = [], []
+            for ch in s:
+                if ch == "\n" and rng.random() < 0.5:
+                    lines.append("".join(cur)); cur = []
+                else:
+                    cur.append(ch)
+            lines.append("".join(cur))
     elif rng.random() < 0.85:
         lines = s.split("\n")                         # one text:p per line
     else:
@@ -335,7 +361,7 @@ EXTRA = [("table:style-name", "ce1"), ("calcext:value-type", "string"), ("table:
          ("table:content-validation-name", "v<1>")]
 
 def gen_ods_case(rng, big=False):
-    flags = {"tab": rng.random() < 0.10, "break": rng.random() < 0.06,
+    flags = {"tab": rng.random() < 0.6, "break": rng.random() < 0.5,
              "cdata": rng.choice([0.0, 0.0, 0.0, 0.3, 0.7, 1.0])}
     cells = []
     for _ in range(rng.randrange(1, 9)):
@@ -343,7 +369,7 @@ def gen_ods_case(rng, big=False):
         extra = ",".join("%s=%s" % (hx(k), hx(v)) for k, v in rng.sample(EXTRA, rng.randrange(0, 3)))
         cn = "c" if rng.random() < 0.08 else "a"
         if rng.random() < 0.15:
-            disp = content_wire(rng, gen_string(rng, maxlen=4), {"cdata": flags["cdata"]})
+            disp = content_wire(rng, gen_string(rng, maxlen=4), flags)
             disp = "!".join(x for x in disp.split("!") if not x.startswith("n"))    # display copy: paragraphs only
             st = "a" + hx(s) + "/" + disp
         else:
@@ -574,6 +600,12 @@ def run_xlsx_batch(ctx, cases, tag):
         if ncd:
             ctx.count("xlsx:file-with-cdata")
             ctx.count("xlsx:cdata-sections", ncd)
+        # escapes as the reader will see them: per element content (chunks glued together)
+        glued = re.sub(r"\x00+", "\x00", "".join(e[1] if e[0] in ("T", "C") else ("" if e[0] == "O" else "\x00") for e in unwire(sstw) + body))
+        nesc = len(re.findall(r"_x[0-9A-Fa-f]{4}_", glued))
+        if nesc:
+            ctx.count("xlsx:file-with-xstring-escape")
+            ctx.count("xlsx:xstring-escapes", nesc)
     impl = ctx.run_impl(vh_lines)
     sheet = ctx.run_model(sheet_lines)          # M over exactly the events that were serialised
     for cid, (line, model, spec, known, legal, path, fspec) in meta.items():
@@ -619,6 +651,12 @@ def run_ods_batch(ctx, cases, tag):
         if ncd:
             ctx.count("ods:file-with-cdata")
             ctx.count("ods:cdata-sections", ncd)
+        ntab = sum(1 for _, _, ev in cells for e in ev if e[0] == "S" and e[1] == "text:tab")
+        nbrk = sum(1 for _, _, ev in cells for e in ev if e[0] == "S" and e[1] == "text:line-break")
+        if ntab:
+            ctx.count("ods:file-with-text-tab"); ctx.count("ods:text-tab-elements", ntab)
+        if nbrk:
+            ctx.count("ods:file-with-line-break"); ctx.count("ods:line-break-elements", nbrk)
     impl = ctx.run_impl(vh_lines)
     for cid, (line, model, spec, known, legal, path) in meta.items():
         keep = classify(ctx, cid, "ods", line, impl.get(cid), model, spec, known, legal, path)
@@ -888,12 +926,69 @@ def run_binary(ctx, n, tag):
         elif i != m:
             ctx.disagreements.append({"function": "utf16", "case": line, "impl": i, "model": m})
 
+# ------------------------------------------------------------------ ST_Xstring: writers against S / M (model only)
+def py_xunescape(s):
+    """reference decoder written independently of the Coq one (regular expression, one pass)"""
+    def sub(m):
+        v = int(m.group(1), 16)
+        return m.group(0) if 0xD800 <= v <= 0xDFFF else chr(v)
+    return re.sub(r"_x([0-9A-Fa-f]{4})_", sub, s)
+
+def excel_write(rng, s):
+    """s as Excel stores it: CR / C0 controls / U+FFFE / U+FFFF (and a few others) as _xHHHH_ in
+    either case; an underscore is escaped only where the WRITTEN text that follows would otherwise
+    complete an escape (or, sometimes, always)"""
+    always = rng.random() < 0.3
+    form = []
+    for ch in s:
+        cp = ord(ch)
+        if ch != "_" and (cp < 32 and cp not in (9, 10) or cp in (0xFFFE, 0xFFFF)
+                          or (cp < 0x10000 and not 0xD800 <= cp <= 0xDFFF and rng.random() < 0.05)):
+            form.append(("_x%04X_" if rng.random() < 0.7 else "_x%04x_") % cp)
+        else:
+            form.append(ch)
+    out = []
+    for i, ch in enumerate(s):
+        if ch == "_":
+            tail = "".join(form[i + 1:i + 8])[:6]      # a later underscore starts with "_" either way
+            if always or re.match(r"x[0-9A-Fa-f]{4}_", tail):
+                out.append("_x005F_" if rng.random() < 0.7 else "_x005f_")
+                continue
+        out.append(form[i])
+    return "".join(out)
+
+def xstring_cases(ctx, n):
+    """(a) a string written the Excel way must denote itself under S and M; (b) S and M agree with
+    an independent decoder on raw material; (c) the Coq writer's output decodes to the string"""
+    lines, want = [], {}
+    for i in range(n):
+        s = gen_string(ctx.rng, xml=(i % 2 == 0), maxlen=12)
+        w = excel_write(ctx.rng, s)
+        lines.append("xw%d\txmltext\txstr\t%s" % (i, hx(w))); want["xw%d" % i] = (s, None)
+        lines.append("xr%d\txmltext\txstr\t%s" % (i, hx(s))); want["xr%d" % i] = (py_xunescape(s), s)
+    model = ctx.run_model(lines)
+    for line in lines:
+        cid = line.split("\t", 1)[0]
+        ctx.traces += 1
+        ctx.count("xstring:model-only")
+        ctx.nontrivial(line.split("\t", 2)[2])
+        f = (model.get(cid) or "").split(":")
+        dec, orig = want[cid]
+        ok = len(f) == 3 and f[0] == hx(dec) and f[1] == hx(dec)
+        if ok and orig is not None:
+            ok = py_xunescape(unhx(f[2])) == orig            # the Coq writer, decoded independently
+        if not ok:
+            ctx.disagreements.append({"function": "xstring-spec", "case": line, "impl": hx(dec), "model": model.get(cid)})
+
 # ------------------------------------------------------------------ corpus: witnesses and regressions, run first
 def corpus(ctx):
+    xstring_cases(ctx, 1500 if ctx.tier == "quick" else 20000)
     # xlsx: regression witnesses of the repaired classes F12 (CDATA: shared, inline, runs, phonetic
     # runs, <v>, <f>, text + CDATA + text, adjacent sections around "]]>", empty sections, under
     # a prefix) and F34 (prefixed rich / empty items: shared, inline, <x:si/>, <x:is/>), the
-    # repaired F11 (<si/> keeps its index), special characters in every form, class F37
+    # repaired F11 (<si/> keeps its index), special characters in every form, the repaired F37
+    # (ST_Xstring escapes: both digit cases, _x005F_, surrogates, near-misses, an escape split over
+    # a Text/CDATA boundary = an escape, split over two runs = none, in <v>, inline, phonetic, <f>)
     cases = [
         ("", [hx("") + "~plain/0/c" + hx("a<b") + "/"], ["s" + hx("0")]),                                  # was F12
         ("", [], ["f" + "t" + hx("1") + "&t" + hx("u") + "+c" + hx("v") + "+t" + hx("w")]),                  # was F12 formula
@@ -908,7 +1003,13 @@ def corpus(ctx):
         ("x", [hx("") + "~plain/0/t" + hx("c") + "/"], ["s" + hx("0"), "irich/", "s" + hx("0"), "irich/P;t" + hx("p")]),   # was F34: <x:is/> swallowed the next cell
         ("", [hx("") + "~plain/0/t" + hx("a_x000D_") + "/", hx("") + "~plain/0/t" + hx("_x005F_x0041_ _x12 _xZZZZ_ _xD83D_") + "/",
               hx("") + "~plain/0/t" + hx("a_x00") + "+c" + hx("0D_b") + "/"],
-         ["s" + hx("0"), "s" + hx("1"), "ft" + hx("1") + "&t" + hx("_x000a_"), "s" + hx("2")]),                # F37 (also across a Text/CDATA boundary)
+         ["s" + hx("0"), "s" + hx("1"), "ft" + hx("1") + "&t" + hx("_x000a_"), "s" + hx("2")]),                # was F37 (also across a Text/CDATA boundary)
+        ("x", [hx("") + "~rich/R;0;;t" + hx("a_x00") + "!R;0;;t" + hx("0D_"),                               # split over two runs: literal
+               hx("") + "~rich/R;1;;t" + hx("_x000d_") + "+c" + hx("_x005f_") + "!P;t" + hx("_x0041_") + "!R;0;;c" + hx("_xD83D__xDE00_") + "!R;0;;t" + hx("_x0041"),
+               hx("") + "~plain/0/t" + hx("_x12_ _x123_ _x12345_ _x000D x000D_ _X000D_ _x000G_ __x0041_ _x00_x0041_ _x0000_ _xFFFF_") + "/"],
+         ["s" + hx("0"), "s" + hx("1"), "s" + hx("2"), "iplain/0/t" + hx("_x0009_") + "+o+t" + hx("_x000A_") + "/P;c" + hx("_x0042_"),
+          "irich/R;0;;c" + hx("_x0041"), "ft" + hx('"_x000D_"&A1') + "&c" + hx("_x00") + "+c" + hx("0D_") + "+t" + hx("_X000D_"),
+          "ft" + hx("1") + "&t" + hx("_x005F_x000D_") + "+o+t" + hx("_x005F") + "+c" + hx("_")]),
         # CDATA everywhere: "a]]>b" as two adjacent sections, in a plain <t>, in runs, in a phonetic run
         # (ignored), in <v> and <f> of a formula string, empty sections, default namespace and prefix
         ("", [hx("") + "~plain/1/c" + hx("a]]") + "+c" + hx(">b") + "/P;c" + hx("ph"),
@@ -922,8 +1023,15 @@ def corpus(ctx):
     ]
     run_xlsx_batch(ctx, cases, "kx")
     ocases = [
-        ["a;;cp" + "l" + hx("a") + "+T+l" + hx("b")],                                   # F35
-        ["a;;cp" + "l" + hx("a") + "+B+l" + hx("b")],                                   # F36
+        ["a;;cp" + "l" + hx("a") + "+T+l" + hx("b")],                                   # was F35
+        ["a;;cp" + "l" + hx("a") + "+B+l" + hx("b")],                                   # was F36
+        # tabs and line breaks: leading / trailing / adjacent, inside a span, next to text:s, in
+        # several paragraphs, in the display copy of an office:string-value cell, inside an
+        # annotation (ignored); ST_Xstring escapes are NOT an ods notion: they stay as written
+        ["a;;cp" + "T+T+l" + hx("a") + "+o" + hx("T1") + "+T+B+l" + hx("b") + "+x+s" + hx("2") + "+T+B+B!pB!pT",
+         "c;;a" + hx("v\tw") + "/pl" + hx("v") + "+T+l" + hx("w"),
+         "a;;cn" + wire([S("text:p"), T("n"), S("text:tab"), E("text:tab"), S("text:line-break"), E("text:line-break"), E("text:p")]) + "!pl" + hx("t") + "+T",
+         "a;;cp" + "l" + hx("a_x000D_ _x005F_ _x0041_") + "+d" + hx("_x000A_")],
         ["a;;cp" + "d" + hx("a") + "+l" + hx("b")],                                     # was F12 ods
         # CDATA only / text + CDATA + text / adjacent sections around "]]>" / inside a span / empty
         ["a;;cp" + "d" + hx(" <a&b> "), "a;;cp" + "l" + hx("u") + "+d" + hx("v") + "+l" + hx("w"),
